@@ -330,6 +330,78 @@ def extract_hooks(tree):
     return out
 
 
+def _plus(expr, base):
+    """`base` or `base + k` (k a decimal literal) -> k; anything else -> None"""
+    m = re.fullmatch(r"\s*%s\s*(?:\+\s*(\d+)\s*)?" % base, expr)
+    if not m:
+        return None
+    return int(m.group(1)) if m.group(1) else 0
+
+
+def extract_absdepth(tree):
+    """recursion depth along the abstract-hook path: marshal_one -> marshal_one_abstract -> JanetMarshalContext.flags ->
+    janet_marshal_janet -> marshal_one, and the same four edges on the unmarshal side.  Every edge must be `flags + k` of the
+    enclosing function's own `flags` (for janet_(un)marshal_janet: of `ctx->flags`); the context initialiser is reported with
+    `…CtxLocal = 0` when its flags field is not derived from the local depth counter (the depth would restart)."""
+    src = csrc.strip_comments(csrc.read(tree, "src/core/marsh.c"))
+    out = {}
+    def need(m, what):
+        if not m:
+            raise ExtractError("abstract depth path: %s not recognised" % what)
+        return m
+    def plus(expr, base, what):
+        k = _plus(expr, base)
+        if k is None:
+            raise ExtractError("abstract depth path: %s passes `%s`, not `%s + k`" % (what, expr.strip(), base.replace("\\", "")))
+        return k
+    mo = csrc.func_body(src, "marshal_one")
+    ma = csrc.func_body(src, "marshal_one_abstract")
+    mj = csrc.func_body(src, "janet_marshal_janet")
+    uo = csrc.func_body(src, "unmarshal_one")
+    ua = csrc.func_body(src, "unmarshal_one_abstract")
+    uj = csrc.func_body(src, "janet_unmarshal_janet")
+    for nm, b in (("marshal_one_abstract", ma), ("unmarshal_one_abstract", ua), ("janet_marshal_janet", mj), ("janet_unmarshal_janet", uj)):
+        if "MARSH_STACKCHECK" in b:
+            raise ExtractError("abstract depth path: %s has a MARSH_STACKCHECK the model does not have" % nm)
+    ms = re.findall(r"\bmarshal_one_abstract\s*\(\s*st\s*,\s*x\s*,([^,()]*)\)\s*;", mo)
+    if len(ms) != 1:
+        raise ExtractError("abstract depth path: marshal_one calls marshal_one_abstract %d times" % len(ms))
+    out["mAbsCall"] = plus(ms[0], "flags", "marshal_one -> marshal_one_abstract")
+    m = need(re.search(r"pushbyte\s*\(\s*st\s*,\s*LB_ABSTRACT\s*\)\s*;\s*marshal_one\s*\(\s*st\s*,\s*janet_csymbolv\s*\(\s*at->name\s*\)\s*,([^,()]*)\)\s*;\s*"
+                       r"JanetMarshalContext\s+context\s*=\s*\{\s*st\s*,\s*NULL\s*,([^,{}]*),\s*NULL\s*,\s*at\s*\}\s*;\s*at->marshal\s*\(\s*abstract\s*,\s*&context\s*\)\s*;", ma),
+             "marshal_one_abstract (lead, type name, context initialiser, hook call)")
+    out["mAbsName"] = plus(m.group(1), "flags", "marshal_one_abstract -> marshal_one(type name)")
+    k = _plus(m.group(2), "flags")
+    out["mAbsCtxLocal"], out["mAbsCtx"] = (0, 0) if k is None else (1, k)
+    out["_mCtxExpr"] = m.group(2).strip()
+    ms = re.findall(r"\bmarshal_one\s*\(\s*st\s*,\s*x\s*,([^,()]*)\)\s*;", mj)
+    if len(ms) != 1:
+        raise ExtractError("abstract depth path: janet_marshal_janet does not call marshal_one exactly once")
+    out["mAbsItem"] = plus(ms[0], r"ctx->flags", "janet_marshal_janet -> marshal_one")
+    ms = re.findall(r"\breturn\s+unmarshal_one_abstract\s*\(\s*st\s*,\s*data\s*,\s*out\s*,([^,()]*)\)\s*;", uo)
+    if len(ms) != 1:
+        raise ExtractError("abstract depth path: unmarshal_one calls unmarshal_one_abstract %d times" % len(ms))
+    out["uAbsCall"] = plus(ms[0], "flags", "unmarshal_one -> unmarshal_one_abstract")
+    m = need(re.search(r"data\s*=\s*unmarshal_one\s*\(\s*st\s*,\s*data\s*,\s*&key\s*,([^,()]*)\)\s*;.*?"
+                       r"JanetMarshalContext\s+context\s*=\s*\{\s*NULL\s*,\s*st\s*,([^,{}]*),\s*data\s*,\s*at\s*\}\s*;\s*void\s*\*\s*abst\s*=\s*at->unmarshal\s*\(\s*&context\s*\)\s*;", ua, flags=re.S),
+             "unmarshal_one_abstract (type name, context initialiser, hook call)")
+    out["uAbsName"] = plus(m.group(1), "flags", "unmarshal_one_abstract -> unmarshal_one(type name)")
+    k = _plus(m.group(2), "flags")
+    out["uAbsCtxLocal"], out["uAbsCtx"] = (0, 0) if k is None else (1, k)
+    out["_uCtxExpr"] = m.group(2).strip()
+    ms = re.findall(r"ctx->data\s*=\s*unmarshal_one\s*\(\s*st\s*,\s*ctx->data\s*,\s*&ret\s*,([^,()]*)\)\s*;", uj)
+    if len(ms) != 1:
+        raise ExtractError("abstract depth path: janet_unmarshal_janet does not call unmarshal_one exactly once")
+    out["uAbsItem"] = plus(ms[0], r"ctx->flags", "janet_unmarshal_janet -> unmarshal_one")
+    # nobody else writes the depth field of a context
+    n = len(re.findall(r"(?:ctx->flags|context\.flags)\s*(?:[-+|&^]|<<|>>)?=(?!=)", src)) + len(re.findall(r"(?:\+\+|--)\s*(?:ctx->flags|context\.flags)|(?:ctx->flags|context\.flags)\s*(?:\+\+|--)", src))
+    if n:
+        raise ExtractError("abstract depth path: the flags field of a JanetMarshalContext is assigned after its initialiser (%d places)" % n)
+    if len(re.findall(r"\bJanetMarshalContext\s+\w+\s*=", src)) != 2:
+        raise ExtractError("abstract depth path: marsh.c builds a JanetMarshalContext in other than the two known places")
+    return out
+
+
 def render(tree):
     flags, c, inc, order_m, order_u = extract(tree)
     out = [csrc.lean_header("src/core/marsh.c, src/include/janet.h"), "namespace JanetModel.Gen.MarshCode\n"]
@@ -351,5 +423,13 @@ def render(tree):
     out.append("\n/-- context calls of the int64 and channel hooks, in statement order (loops: each call site once) -/")
     for k, v in extract_hooks(tree).items():
         out.append("def %s : List String := [" % k + ", ".join('"%s"' % t for t in v) + "]")
+    ad = extract_absdepth(tree)
+    out.append("\n/-- recursion depth along the abstract-hook path (marshal side m…, unmarshal side u…): `Call` = (un)marshal_one ->")
+    out.append("(un)marshal_one_abstract, `Name` = the type-name symbol, `Ctx` = the `flags` field of the JanetMarshalContext initialiser")
+    out.append("(`CtxLocal` = 1 iff that field is `flags + k` of the local depth counter; marshal: `%s`, unmarshal: `%s`)," % (ad["_mCtxExpr"], ad["_uCtxExpr"]))
+    out.append("`Item` = janet_(un)marshal_janet (`ctx->flags + k`) -/" )
+    for k in sorted(ad):
+        if not k.startswith("_"):
+            out.append("abbrev %s : Nat := %d" % (k, ad[k]))
     out.append("\nend JanetModel.Gen.MarshCode\n")
     return "\n".join(out)
